@@ -303,6 +303,30 @@ func hangViolation(prop string, r *result) *violation {
 			}
 		}
 	}
+	// a goroutine that repository code sent to wait for a mutex and that is
+	// still waiting when the cap runs out: inside the bubble the clock stands
+	// still while anybody waits for a real mutex, so nobody is going to
+	// release it (the frame right above sync's own must be the repository's:
+	// locks inside libraries are not judged)
+	for _, blk := range strings.Split(r.stderr, "\n\n") {
+		lines := strings.Split(blk, "\n")
+		if !strings.HasPrefix(lines[0], "goroutine ") || !(strings.Contains(lines[0], "[sync.Mutex.Lock") || strings.Contains(lines[0], "[sync.RWMutex.")) {
+			continue
+		}
+		for i := 1; i+1 < len(lines); i += 2 {
+			fn, file := strings.TrimSpace(lines[i]), strings.TrimSpace(lines[i+1])
+			if strings.HasPrefix(fn, "sync.") || strings.HasPrefix(fn, "internal/sync.") || strings.HasPrefix(fn, "runtime.") {
+				continue
+			}
+			if strings.HasPrefix(file, "/repo/") {
+				if j := strings.IndexByte(file, ' '); j > 0 {
+					file = file[:j]
+				}
+				return &violation{Property: prop, Clause: "hang", Detail: "the run did not quiesce within the wall-clock cap; a goroutine of repository code is waiting for a mutex that is never released, at " + file}
+			}
+			break
+		}
+	}
 	return nil
 }
 
